@@ -45,6 +45,11 @@ I_BIG = np.vstack([np.stack([np.arange(20)] * 3, axis=1), teneva.sample_lhs([20,
 Y_BIGD = teneva.get_many(teneva.rand([20, 20, 20], 2, seed=4), I_BIG)
 
 
+I_SW = teneva.grid_flat([4, 4, 4, 4])
+_g_sw, _h_sw = np.random.default_rng(0).normal(size=(4, 4)), np.random.default_rng(1).normal(size=(4, 4))
+Y_SW = _g_sw[I_SW[:, 0], I_SW[:, 2]] * _h_sw[I_SW[:, 1], I_SW[:, 3]]
+
+
 def _f_cross(I):
     return teneva.get_many(tt(), I)
 
@@ -121,6 +126,9 @@ CALLS = {
     'als': lambda: (teneva.als, (I0.copy(), y0.copy(), tt(seed=9)), dict(nswp=2, info={})),
     'als_w': lambda: (teneva.als, (I0.copy(), y0.copy(), tt(seed=9)), dict(nswp=2, info={}, w=np.ones(len(y0)), lamb=None)),
     'als_vld': lambda: (teneva.als, (I0.copy(), y0.copy(), tt(seed=9)), dict(nswp=2, info={}, I_vld=I0[:9].copy(), y_vld=y0[:9].copy(), e_vld=1e-3)),
+    # the experimental mode-swap option on data for which a swap really happens: f = g(i0, i2) * h(i1, i3) on the full grid
+    'als_adapt_swap': lambda: (teneva.als, (I_SW.copy(), Y_SW.copy(), teneva.rand([4, 4, 4, 4], 2, seed=1)),
+                               dict(nswp=3, r=16, lamb=1.E-8, info={}, I_vld=I_SW.copy(), y_vld=Y_SW.copy(), allow_swap=True)),
     'als_adapt': lambda: (teneva.als, (I0.copy(), y0.copy(), tt(r=1, seed=9)), dict(nswp=2, info={}, r=3)),
     'als_adapt_sparse': lambda: (teneva.als, (I_SP.copy(), Y_SP.copy(), teneva.rand([4, 4, 4], 1, seed=2)), dict(nswp=2, info={}, r=3)),
     # n_max given: equal to the mode size of the initial tensor (nothing to pad), larger, and a result fed back in
